@@ -644,8 +644,17 @@ func c01GenRec(t *rapid.T, allowQuote bool) gbRec {
 	nd := rapid.IntRange(0, 3).Draw(t, "ndblink")
 	for i := 0; i < nd; i++ {
 		val := genWord(t, 12)
-		if rapid.IntRange(0, 4).Draw(t, "emptyval") == 0 {
+		switch rapid.IntRange(0, 9).Draw(t, "dbval") {
+		case 0, 1:
 			val = ""
+		case 2:
+			val = genLine(t, 40) // several words
+		case 3:
+			val = genWord(t, 8) + ": " + genWord(t, 8) // the key/value separator again, inside the value
+		case 4:
+			val = genWord(t, 6) + ":" + genWord(t, 6) + ": " + genWord(t, 4) + ", " + genWord(t, 4) + ": " + genWord(t, 3)
+		case 5:
+			val = " " + genWord(t, 8) // as in the corpus ("KEGG BRITE:  NC_001422")
 		}
 		r.DBLink = append(r.DBLink, [2]string{fmt.Sprintf("Db%d%s", i, strings.ReplaceAll(genWord(t, 5), ":", "x")), val})
 	}
